@@ -1,13 +1,19 @@
 """C16 — COPC HTTP fetching is schedule-independent and always terminates.
 
-Model: coq/Model/Fetch.v — transition systems whose worker loop / main function are the instruction lists that
-tools/py2v_c16.py extracts from laspy/copc.py (Gen/GenFetch.v).
+Model: coq/Model/Fetch.v — transition systems whose worker loop / main function / HttpRangeStream.read are the instruction
+lists that tools/py2v_c16.py extracts from laspy/copc.py (Gen/GenFetch.v); the queue strategy is replayed in the step-by-step
+system (pstate: one step per put / thread start of main), which Proofs/FetchPrologueProofs.v shows to refine the system with an
+atomic prologue the safety / progress / termination theorems are proved on.  Whether a request fails is computed by the model
+from the status the fake server answers with (stream_fails gen_stream_read).
 
 Tie (schedule replay): the REAL HttpFetcherThread / http_queue_strategy / http_thread_executor_strategy / HttpRangeStream run in
 this process against instrumented doubles patched into the `laspy.copc` namespace only: queue.Queue / SimpleQueue doubles, a
 fake `requests` session under the real HttpRangeStream (subclassed to make `seek` observable), a ThreadPoolExecutor subclass.
-Every queue operation, request completion, seek (executor), future.result() and the pool shutdown hands control to a controller
-that lets exactly one thread move at a time, following a schedule (list of thread ids). The executed trace is replayed in the
+Every queue operation (INCLUDING the main thread's query_queue.put calls), every thread start of the queue strategy, request
+completion, seek (executor), future.result() and the pool shutdown hands control to a controller that lets exactly one thread
+move at a time, following a schedule (list of thread ids).  A failing request is an answer of the fake server with any 4xx / 5xx
+status (incl. 416) and an error body of any length (empty, shorter, as long as, longer than the range), or no answer at all
+(session.get raises); empty ranges (the byte query of nodes without points) are part of the inputs. The executed trace is replayed in the
 extracted model, which must accept it (same operations in the same order per thread) and end in the same outcome: bytes /
 exception, which workers have exited, nobody blocked.
 
@@ -29,12 +35,17 @@ ASSUMPTIONS = [
     "stdlib semantics assumed, not verified: queue.Queue (FIFO, unfinished_tasks/join/task_done), queue.SimpleQueue, "
     "threading.Thread, concurrent.futures.ThreadPoolExecutor (FIFO work queue, Future.result(), shutdown(wait=True) on leaving "
     "the with block); they are replaced by instrumented doubles with exactly these semantics during replay",
-    "the HTTP server answers a range request with exactly the requested bytes or with an error status (requests' retry "
-    "adapter, sockets and partial responses are outside the model); at least one worker (http_num_threads >= 1)",
+    "the HTTP server answers a range request with exactly the requested bytes (status 206), with a client/server error status "
+    "400..599 and any body, or not at all (the session raises); requests.Response.raise_for_status raises exactly for 400..599; "
+    "requests' retry adapter, sockets and success answers with a body of the wrong length are outside the model; at least one "
+    "worker (http_num_threads >= 1)",
     "byte ranges handed to the strategies have strictly increasing offsets (what CopcReader builds from distinct nodes); "
     "for unsorted ranges the queue strategy returns the blocks in offset order (proved and compared, not required by the oracle)",
-    "the OS scheduler is abstracted to: any interleaving of the threads at queue operations, request completions, seeks, "
-    "future.result() and pool shutdown; code between two such points of one thread is treated as atomic",
+    "the OS scheduler is abstracted to: any interleaving of the threads at queue operations (main's puts included), thread "
+    "starts (queue strategy), request completions, seeks, future.result() and pool shutdown; code between two such points of "
+    "one thread is treated as atomic",
+    "end-to-end queries use harness/fake_lazrs as the LAZ backend; a chunk-table entry (0 points, 0 bytes) - an empty COPC "
+    "node - is dropped before the stand-in sees it (it rejects a 0-byte chunk)",
 ]
 
 WAIT = 8.0       # seconds the controller waits for the threads to reach their next control point before calling it a hang
@@ -45,9 +56,39 @@ class Abort(BaseException):
 
 
 class FakeHTTPError(Exception):
-    def __init__(self, start, n):
-        super().__init__(f"500 Server Error for range {start}+{n}")
+    """what requests raises: HTTPError from raise_for_status (status 4xx/5xx) or a ConnectionError (status -1)"""
+
+    def __init__(self, start, n, status=500):
+        super().__init__(f"{status} Error for range {start}+{n}" if status >= 0 else f"connection error for range {start}+{n}")
         self.range = (start, n)
+        self.status = status
+
+
+# what a failing request is answered with: (status, body kind); status -1 = no answer, session.get raises
+STATUSES = [416, 500, 404, 403, 503, 400, 429, 502, 401, 504, 408, 410, 599]
+BODIES = ["empty", "short", "exact", "long"]
+FAULTS = [(st, BODIES[(i + k) % 4]) for k in range(4) for i, st in enumerate(STATUSES)]
+FAULTS.insert(5, (-1, "none"))
+
+
+class FaultCycle:
+    """hands out the fault kinds in a fixed order, so that every run covers every status x body kind (both strategies get
+    the same fault for the same failing set)"""
+
+    def __init__(self):
+        self.k = 0
+
+    def next(self):
+        f = FAULTS[self.k % len(FAULTS)]
+        self.k += 1
+        return f
+
+    def assign(self, failing):
+        return {tuple(r): self.next() for r in failing}
+
+
+def error_body(kind, n):
+    return {"empty": b"", "short": b"\xee" * max(0, n - 1), "exact": b"\xee" * n, "long": b"\xee" * (n + 7), "none": b""}[kind]
 
 
 class TInfo:
@@ -258,6 +299,8 @@ _ORIG_START = threading.Thread.start
 def _patched_start(self):
     ctl = CURRENT
     if ctl is not None and ctl.me() is not None and not ctl.aborting:
+        if ctl.mode == "queue":
+            ctl.point("start")                 # ... and before each thread start
         ctl.register(self)
     return _ORIG_START(self)
 
@@ -273,6 +316,7 @@ class CtlQueue:
             CURRENT.query_queue = self
 
     def put(self, x, block=True, timeout=None):
+        CURRENT.point("qput")                  # the main thread can be preempted between two puts
         self.items.append(x)
         self.unfinished += 1
 
@@ -343,14 +387,18 @@ class CtlSimpleQueue:
 
 
 class FakeResponse:
-    def __init__(self, content, err):
+    def __init__(self, status, content, rng):
+        self.status_code = status
         self.content = content
-        self.err = err
-        self.status_code = 500 if err else 206
+        self.ok = status < 400
+        self.reason = "fake"
+        self.headers = {"Content-Length": str(len(content))}
+        self.text = ""
+        self._rng = rng
 
     def raise_for_status(self):
-        if self.err is not None:
-            raise self.err
+        if 400 <= self.status_code < 600:
+            raise FakeHTTPError(self._rng[0], self._rng[1], self.status_code)
 
 
 class FakeSession:
@@ -372,20 +420,34 @@ class FakeSession:
         ctl = CURRENT
         if ctl is not None and not ctl.seek_yields:
             ctl.point("fetch", extra=(start, n))       # queue strategy: the request completes when the controller says so
-        self.world.requests.append((start, n))
-        if (start, n) in self.world.failing:
-            return FakeResponse(b"", FakeHTTPError(start, n))
-        return FakeResponse(bytes(self.world.file[start:end + 1]), None)
+        w = self.world
+        w.requests.append((start, n))
+        fault = w.fault_for(start, n)
+        if fault is None and (start >= len(w.file) or n <= 0):
+            fault = (416, "empty")                      # what a server answers for a range outside the resource
+        if fault is not None:
+            w.failed.append((start, n))
+            if fault[0] < 0:
+                raise FakeHTTPError(start, n, -1)
+            return FakeResponse(fault[0], error_body(fault[1], n), (start, n))
+        return FakeResponse(206, bytes(w.file[start:end + 1]), (start, n))
 
     def close(self):
         self.closed = True
 
 
 class World:
-    def __init__(self, file, failing=()):
+    """the server: the file, and what it answers the requests of the failing ranges with"""
+
+    def __init__(self, file, faults=None, by_start=False):
         self.file = bytes(file)
-        self.failing = set(failing)
+        self.faults = dict(faults or {})       # (start, n) -> (status, body kind)   [by_start: start -> ...]
+        self.by_start = by_start
         self.requests = []
+        self.failed = []                       # the requests that were answered with an error / not answered
+
+    def fault_for(self, start, n):
+        return self.faults.get(start if self.by_start else (start, n))
 
 
 _PATCH_LOCK = threading.Lock()
@@ -417,7 +479,8 @@ class Patched:
             def read(self, n):
                 # executor strategy: seek and read are separate observable operations of a job (a stream shared between
                 # jobs could be moved in between); the whole read = range computation + response + position update is one step
-                if ctl.seek_yields and n != 0:
+                # (an empty range makes no request: the read itself is the step)
+                if ctl.seek_yields or n == 0:
                     ctl.point("fetch")
                 return real_stream.read(self, n)
 
@@ -532,12 +595,13 @@ def controlled_call(mode, world, fn, schedule=None, policy=None, seek_yields=Fal
         "errors": list(ctl.thread_errors),
         "decisions": list(ctl.decisions),
         "requests": list(world.requests),
+        "failed": list(world.failed),
         "threads": len(started) - 1,
     }
 
 
-def run_queue(file, ranges, workers, failing, schedule=None, policy=None):
-    world = World(file, failing)
+def run_queue(file, ranges, workers, faults, schedule=None, policy=None):
+    world = World(file, faults)
 
     def fn(p):
         src = p.stream_cls("http://fake/file.copc.laz")
@@ -547,8 +611,8 @@ def run_queue(file, ranges, workers, failing, schedule=None, policy=None):
     return controlled_call("queue", world, fn, schedule, policy, seek_yields=False)
 
 
-def run_exec(file, ranges, workers, failing, schedule=None, policy=None):
-    world = World(file, failing)
+def run_exec(file, ranges, workers, faults, schedule=None, policy=None):
+    world = World(file, faults)
 
     def fn(p):
         src = p.stream_cls("http://fake/file.copc.laz")
@@ -559,7 +623,7 @@ def run_exec(file, ranges, workers, failing, schedule=None, policy=None):
 
 
 # ------------------------------------------------------------------------------------------------ schedules without the model
-LABELS = ["test", "take", "fetch", "put", "done", "join", "drain", "seek", "collect", "shutdown", "joined", "rget"]
+LABELS = ["test", "take", "fetch", "put", "done", "join", "drain", "seek", "collect", "shutdown", "joined", "rget", "qput", "start"]
 
 
 def make_policy(prio, tid_pref, eps, rng):
@@ -596,7 +660,9 @@ def last_item_race(ctl, enabled):
 
 ADVERSARIAL = {
     # name: (label priority, thread preference)
-    "main-first (a worker preempted between task_done and put)": (["join", "drain", "collect", "shutdown", "joined", "take", "test", "fetch", "seek", "done", "put"], "low"),
+    "main-first (a worker preempted between task_done and put)": (["qput", "start", "join", "drain", "collect", "shutdown", "joined", "take", "test", "fetch", "seek", "done", "put"], "low"),
+    "main preempted between its puts / thread starts until no worker can move": (["take", "test", "fetch", "seek", "put", "done", "collect", "join", "drain", "start", "qput"], "low"),
+    "main starts every worker it can before putting the next range": (["start", "take", "test", "fetch", "seek", "put", "done", "qput", "join", "drain", "collect"], "high"),
     "highest worker first (a lower offset answered after a higher one)": (["take", "test", "seek", "fetch", "put", "done", "join", "drain", "collect"], "high"),
     "all seeks before any read (jobs interleaving on a stream)": (["seek", "take", "test", "fetch", "put", "done", "join", "drain", "collect"], "low"),
     "all takes first, requests completed last-in first-out": (["take", "test", "seek", "done", "put", "fetch", "join", "drain", "collect"], "high"),
@@ -620,16 +686,27 @@ def make_file(rng, size):
     return bytes(rng.randrange(1, 256) for _ in range(size))
 
 
-def make_ranges(rng, n, size, sorted_=True):
-    """n disjoint ranges inside [0, size) with strictly increasing offsets (or shuffled)"""
+def make_ranges(rng, n, size, sorted_=True, empties="none"):
+    """n disjoint ranges inside [0, size) with strictly increasing offsets (or shuffled); empties: 'none' | 'first' (the
+    range (0, 0) CopcReader builds for nodes without points comes first) | 'some' (any range may be empty) | 'all'"""
     cuts = sorted(rng.sample(range(0, size), 2 * n)) if n else []
     rs = []
     for k in range(n):
         a, b = cuts[2 * k], cuts[2 * k + 1]
         rs.append((a, max(1, min(b - a, 6))))
+    if empties == "first" and rs:
+        rs[0] = (0, 0)
+    elif empties == "some":
+        rs = [(o, 0) if rng.random() < 0.4 else (o, m) for o, m in rs]
+    elif empties == "all":
+        rs = [(o, 0) for o, m in rs]
     if not sorted_:
         rng.shuffle(rs)
     return rs
+
+
+def pick_empties(rng):
+    return rng.choice(["none", "none", "first", "first", "some", "all"])
 
 
 def fail_sets(rng, ranges, all_subsets):
@@ -673,7 +750,7 @@ def oracle(mode, file, ranges, failing, res):
     if not all(res["exited"]):
         return kind0 + "worker thread not finished", f"exited={res['exited']}"
     out = res["outcome"]
-    fails_here = [r for r in ranges if r in set(failing)]
+    fails_here = [r for r in ranges if r in set(failing) and r[1] > 0]      # an empty range makes no request: it cannot fail
     if not fails_here:
         want = local_read(file, ranges)
         if out[0] != "returned":
@@ -695,11 +772,16 @@ def short(out):
 
 
 # ------------------------------------------------------------------------------------------------ model side
-def model_line(mode, shape, file, ranges, workers, failing, events):
+def ftok(faults):
+    """failing ranges with the status the server answers them with"""
+    return "|".join(f"{o}:{n}:{st}" for (o, n), (st, _) in faults.items()) if faults else "-"
+
+
+def model_line(mode, shape, file, ranges, workers, faults, events):
     ev = ",".join(events) if events else "-"
     if mode == "queue":
-        return f"qtrace gen {common.hexb(file)} {rtok(ranges)} {workers} {rtok(failing)} {ev}"
-    return f"xtrace {shape['per_job']} {shape['collect']} {common.hexb(file)} {rtok(ranges)} {workers} {rtok(failing)} {ev}"
+        return f"qtrace gen {common.hexb(file)} {rtok(ranges)} {workers} {ftok(faults)} {ev}"
+    return f"xtrace {shape['per_job']} {shape['collect']} {common.hexb(file)} {rtok(ranges)} {workers} {ftok(faults)} {ev}"
 
 
 def parse_kv(line):
@@ -755,10 +837,13 @@ RUNNERS = {"queue": run_queue, "exec": run_exec}
 _RESULTS = []        # (case dict, impl result) of every run made by correspond(), re-judged by search()
 
 
-def explore_cmd(mode, shape, file, ranges, workers, failing, limit):
+def explore_cmd(mode, shape, file, ranges, workers, faults, limit):
     if mode == "queue":
-        return f"qexplore gen {common.hexb(file)} {rtok(ranges)} {workers} {rtok(failing)} {limit}"
-    return f"xexplore {shape['per_job']} {shape['collect']} {common.hexb(file)} {rtok(ranges)} {workers} {rtok(failing)} {limit}"
+        return f"qexplore gen {common.hexb(file)} {rtok(ranges)} {workers} {ftok(faults)} {limit}"
+    return f"xexplore {shape['per_job']} {shape['collect']} {common.hexb(file)} {rtok(ranges)} {workers} {ftok(faults)} {limit}"
+
+
+CYCLE = FaultCycle()
 
 
 def get_shape():
@@ -771,9 +856,10 @@ def small_configs(ctx):
     rng = ctx.rng
     file = make_file(rng, 24)
     out = []
-    for n, w, allf, sample in [(1, 1, True, None), (1, 2, True, None), (2, 1, True, None), (2, 2, True, None), (2, 3, False, None),
-                               (3, 1, False, None), (3, 2, False, ctx.n(260, None)), (3, 3, False, ctx.n(420, None))]:
-        ranges = make_ranges(rng, n, len(file))
+    for n, w, allf, sample, emp in [(1, 1, True, None, "none"), (1, 2, True, None, "first"), (2, 1, True, None, "first"),
+                                    (2, 2, True, None, "none"), (2, 3, False, None, "some"), (3, 1, False, None, "none"),
+                                    (3, 2, False, ctx.n(260, None), "first"), (3, 3, False, ctx.n(400, None), "none")]:
+        ranges = make_ranges(rng, n, len(file), True, emp)
         fs = fail_sets(rng, ranges, allf)
         if not allf and not ctx.thorough():
             fs = fs[:2] if n < 3 else [fs[0], (ranges[1],)]
@@ -787,12 +873,13 @@ def enumerated_cases(ctx, shape):
     cmds, meta = [], []
     for file, ranges, w, fs, sample in small_configs(ctx):
         for failing in fs:
+            faults = CYCLE.assign(failing)
             for mode in ("queue", "exec"):
-                cmds.append(explore_cmd(mode, shape, file, ranges, w, failing, 400000))
-                meta.append((mode, file, ranges, w, failing, sample))
+                cmds.append(explore_cmd(mode, shape, file, ranges, w, faults, 400000))
+                meta.append((mode, file, ranges, w, failing, faults, sample))
     outs = common.run_model(cmds, name="c16")
     stats = {}
-    for (mode, file, ranges, w, failing, sample), line in zip(meta, outs):
+    for (mode, file, ranges, w, failing, faults, sample), line in zip(meta, outs):
         head, kv = parse_kv(line)
         if head != "ok":
             raise RuntimeError("explore failed: " + line[:200])
@@ -804,8 +891,8 @@ def enumerated_cases(ctx, shape):
         st = stats.setdefault(key, {"states": 0, "transitions": 0, "schedules": 0, "replayed": 0})
         st["states"] += int(kv["states"]); st["transitions"] += int(kv["edges"]); st["schedules"] += total; st["replayed"] += len(scheds)
         for sc in scheds:
-            cases.append({"mode": mode, "file": file, "ranges": ranges, "workers": w, "failing": failing, "schedule": sc,
-                          "policy": None, "origin": "model graph", "oracle": True})
+            cases.append({"mode": mode, "file": file, "ranges": ranges, "workers": w, "failing": failing, "faults": faults,
+                          "schedule": sc, "policy": None, "origin": "model graph", "oracle": True})
     ctx.extra["schedule_enumeration"] = stats
     return cases
 
@@ -814,40 +901,53 @@ def policy_cases(ctx, k_cfg, k_random, with_unsorted=True):
     rng = ctx.rng
     cases = []
     cfgs = []
-    for n, w in [(1, 1), (1, 4), (2, 1), (2, 2), (3, 2), (3, 1), (4, 2), (5, 3), (6, 4), (2, 5), (4, 4), (6, 2)]:
-        cfgs.append((n, w, True))
+    for n, w, emp in [(1, 1, "none"), (1, 4, "first"), (2, 1, "none"), (2, 2, "first"), (3, 2, "none"), (3, 1, "some"), (4, 2, "first"),
+                      (5, 3, "none"), (6, 4, "some"), (2, 5, "all"), (4, 4, "none"), (6, 2, "none"), (5, 1, "first"), (3, 4, "none")]:
+        cfgs.append((n, w, True, emp))
     for _ in range(k_cfg):
-        cfgs.append((rng.randrange(1, 7), rng.randrange(1, 6), rng.random() < 0.8 or not with_unsorted))
-    for n, w, sorted_ in cfgs:
+        cfgs.append((rng.randrange(1, 7), rng.randrange(1, 6), rng.random() < 0.8 or not with_unsorted, pick_empties(rng)))
+    for n, w, sorted_, emp in cfgs:
         file = make_file(rng, 40)
-        ranges = make_ranges(rng, n, len(file), sorted_)
+        ranges = make_ranges(rng, n, len(file), sorted_, emp)
         for failing in fail_sets(rng, ranges, False)[: (5 if ctx.thorough() else 3)]:
+            faults = CYCLE.assign(failing)
             for mode in ("queue", "exec"):
                 for name, pol in free_schedules(rng, k_random):
-                    cases.append({"mode": mode, "file": file, "ranges": ranges, "workers": w, "failing": failing, "schedule": None,
-                                  "policy": pol, "origin": name.split(" #")[0], "oracle": sorted_})
+                    cases.append({"mode": mode, "file": file, "ranges": ranges, "workers": w, "failing": failing, "faults": faults,
+                                  "schedule": None, "policy": pol, "origin": name.split(" #")[0], "oracle": sorted_})
     return cases
 
 
 def run_case(c, schedule=None):
-    return RUNNERS[c["mode"]](c["file"], c["ranges"], c["workers"], c["failing"],
+    return RUNNERS[c["mode"]](c["file"], c["ranges"], c["workers"], c["faults"],
                               schedule=schedule if schedule is not None else c["schedule"], policy=c["policy"])
 
 
 def case_input(c, res):
     return {"strategy": c["mode"], "file_hex": c["file"].hex(), "ranges": [list(r) for r in c["ranges"]], "workers": c["workers"],
-            "failing": [list(r) for r in c["failing"]], "schedule": res["decisions"], "origin": c["origin"]}
+            "failing": [list(r) + list(c["faults"][tuple(r)]) for r in c["failing"]],
+            "failing_legend": "[offset, size, status the server answers with (-1: no answer, the session raises), error body kind]",
+            "schedule": res["decisions"], "origin": c["origin"]}
 
 
-RULE = ("inputs: a fake file of random non-zero bytes, 0..6 disjoint byte ranges with strictly increasing offsets (a fifth of the random "
-        "configurations shuffled: compared with the model only), 1..5 workers, failing-request sets {none, first, last, all, random} (all "
-        "subsets for <= 2 ranges), both strategies. schedules: (a) from the model: for the configurations up to 3 ranges x 3 workers the "
-        "reachable state graph is enumerated at the granularity of the observable operations and a set of schedules covering EVERY "
+RULE = ("inputs: a fake file of random non-zero bytes, 1..6 disjoint byte ranges with strictly increasing offsets, some of them EMPTY "
+        "(size 0: first / some / all - the byte query of COPC nodes without points; a fifth of the random configurations shuffled: "
+        "compared with the model only), 1..5 workers, failing-request sets {none, first, last, all, random} (all subsets for <= 2 "
+        "ranges); a failing request is answered with a status cycling through 416, 500, 404, 403, 503, 400, 429, 502, 401, 504, 408, "
+        "410, 599 and an error body that is empty / shorter than / as long as / longer than the range, or not answered at all (the "
+        "session raises); both strategies. schedules: the controlled points include the MAIN thread's query_queue.put calls and "
+        "thread starts; (a) from the model: for the configurations up to 3 ranges x 3 workers the reachable state graph of the "
+        "step-by-step system is enumerated at the granularity of the observable operations and a set of schedules covering EVERY "
         "transition of it is replayed on the real threads (quick tier: a random sample for 3x2 and 3x3); (b) model-independent: the "
-        "adversarial policies (main first = worker preempted between task_done and put; highest worker first = lower offset answered "
-        "last; all seeks before any read; LIFO completions; one worker alone; two workers past the emptiness test with one item left) "
-        "and random operation-priority policies. non-trivial = at least two threads besides main took steps, or a request failed; "
-        "distinct by (strategy, ranges, workers, failing set, executed schedule)")
+        "adversarial policies (main first = worker preempted between task_done and put; main preempted between its puts / starts "
+        "until no worker can move; main starts every worker before the next put; highest worker first = lower offset answered last; "
+        "all seeks before any read; LIFO completions; one worker alone; two workers past the emptiness test with one item left) and "
+        "random operation-priority policies. end to end: CopcReader.query over the fake http source vs the local bytes on generated "
+        "COPC files (chunks laid out deepest level first / in level order / randomly, with gaps; nodes without points: none / root / "
+        "inner / some / all), queries: whole file, levels, boxes, and for empty nodes the query selecting exactly that node; workers "
+        "1, 2, 3, 8; both strategies; one failing data request of each kind; deadlock / hang detection by the controller. non-trivial "
+        "= at least two threads besides main took steps, or a request failed; distinct by (strategy, ranges, workers, failing set, "
+        "executed schedule)")
 
 
 def register(ctx, c, res):
@@ -861,6 +961,10 @@ def register(ctx, c, res):
     ctx.count(f"ranges:{len(c['ranges'])}")
     ctx.count(f"workers:{c['workers']}")
     ctx.count("failing:" + ("none" if not c["failing"] else ("all" if len(c["failing"]) == len(c["ranges"]) else "some")))
+    for st, body in c["faults"].values():
+        ctx.count(f"fault:{st if st >= 0 else 'no answer'}")
+        ctx.count("error body:" + body)
+    ctx.count(f"empty ranges:{sum(1 for r in c['ranges'] if r[1] == 0)}")
     ctx.count("schedule:" + c["origin"])
     ctx.count("outcome:" + res["outcome"][0] + ("" if res["problem"] is None else "+" + res["problem"][0]))
 
@@ -877,7 +981,7 @@ def correspond(ctx):
         res = run_case(c)
         _RESULTS.append((c, res))
         register(ctx, c, res)
-        lines.append(model_line(c["mode"], shape, c["file"], c["ranges"], c["workers"], c["failing"], res["events"]))
+        lines.append(model_line(c["mode"], shape, c["file"], c["ranges"], c["workers"], c["faults"], res["events"]))
     outs = common.run_model(lines, name="c16")
     seen = set()
     for (c, res), line in zip(_RESULTS, outs):
@@ -921,11 +1025,32 @@ def search(ctx, seeds):
             break
     if not failing:
         failing += e2e(ctx)
+    if not failing:
+        probe_short_success_body(ctx)
     return failing
 
 
+def probe_short_success_body(ctx):
+    """NOT part of the oracle (assumption 2 puts it outside the fault model): what the strategies do with a 206 answer whose body
+    is shorter than the range; recorded in the evidence only"""
+    file = bytes(range(1, 41))
+    ranges = [(2, 3), (10, 4), (20, 2)]
+    seen = {}
+    for mode, run in RUNNERS.items():
+        try:
+            res = run(file, ranges, 2, {(10, 4): (206, "short")}, policy=make_policy(LABELS, "low", 0.0, ctx.rng))
+            out = res["outcome"]
+            seen[mode] = ("raises " + str(out[1]) if out[0] != "returned" else
+                          ("returns the local read" if out[1] == local_read(file, ranges) else
+                           f"returns {out[1].hex()} instead of {local_read(file, ranges).hex()}: the short block is copied as is and "
+                           "the following blocks are shifted, no exception"))
+        except Exception as ex:  # noqa
+            seen[mode] = "probe failed: " + repr(ex)[:80]
+    ctx.extra["outside_the_fault_model:206_answer_with_a_short_body"] = seen
+
+
 def expected_text(c):
-    fails_here = [r for r in c["ranges"] if r in set(c["failing"])]
+    fails_here = [r for r in c["ranges"] if r in set(c["failing"]) and r[1] > 0]
     if fails_here:
         return f"the call raises the error of one of the failed requests {fails_here}; every thread it started has finished"
     return f"the call returns {local_read(c['file'], c['ranges']).hex()} (the local read); every thread it started has finished"
@@ -940,7 +1065,8 @@ def shrink(c, res, kind):
             fl = tuple(r for r in c["failing"] if r in rs)
             if c["failing"] and not fl:
                 fl = (rs[0],)
-            c2 = dict(c, ranges=rs, workers=w, failing=fl)
+            c2 = dict(c, ranges=rs, workers=w, failing=fl,
+                      faults={r: c["faults"].get(r, next(iter(c["faults"].values()), (500, "empty"))) for r in fl})
             if c["policy"] is None:
                 continue
             r2 = run_case(c2)
@@ -958,7 +1084,9 @@ def replay(ctx, data):
     if inp.get("strategy") == "e2e":
         return e2e_replay(inp)
     c = {"mode": inp["strategy"], "file": bytes.fromhex(inp["file_hex"]), "ranges": [tuple(r) for r in inp["ranges"]],
-         "workers": inp["workers"], "failing": tuple(tuple(r) for r in inp["failing"]), "schedule": list(inp["schedule"]), "policy": None}
+         "workers": inp["workers"], "failing": tuple(tuple(r[:2]) for r in inp["failing"]),
+         "faults": {tuple(r[:2]): ((r[2], r[3]) if len(r) >= 4 else (500, "empty")) for r in inp["failing"]},
+         "schedule": list(inp["schedule"]), "policy": None}
     res = run_case(c)
     bad = oracle(c["mode"], c["file"], c["ranges"], c["failing"], res)
     print("trace:", " ".join(res["events"]))
@@ -970,8 +1098,37 @@ def replay(ctx, data):
 
 
 # ------------------------------------------------------------------------------------------------ end to end (fake LAZ backend)
-def build_copc(rng):
-    """a small COPC file: root + 8 children + some grandchildren, chunks laid out in random order, one hierarchy page (EVLR)"""
+class DropEmptyEntries:
+    """LAZ backend proxy: a chunk-table entry (0 points, 0 bytes) - an empty COPC node - decodes to nothing"""
+
+    def __init__(self, real):
+        self._real = real
+
+    def __getattr__(self, name):
+        return getattr(self._real, name)
+
+    def decompress_points_with_chunk_table(self, compressed, record_data, out, chunk_table, selection=None):
+        kept = [(int(p), int(b)) for p, b in chunk_table if not (int(p) == 0 and int(b) == 0)]
+        return self._real.decompress_points_with_chunk_table(compressed, record_data, out, kept, selection)
+
+
+def e2e_backend():
+    from harness import fake_lazrs
+    fake_lazrs.install()
+    import laspy.copc as copc
+    if not isinstance(copc.lazrs, DropEmptyEntries):
+        copc.lazrs = DropEmptyEntries(copc.lazrs)
+    return copc
+
+
+LAYOUTS = ["deepest level first", "level order", "random", "deepest level first, gaps", "random"]
+EMPTIES = ["none", "root", "some", "inner", "all", "some"]
+
+
+def build_copc(rng, layout="random", empties="none"):
+    """a small COPC file: root + 8 children + grandchildren below two of them, one hierarchy page (EVLR).  layout: the order
+    the chunks are laid out in the file (any order is legal); empties: which nodes have no points (hierarchy entry with
+    point_count 0, offset 0, byte_size 0)"""
     from harness import fake_lazrs
     fake_lazrs.install()
     import laspy
@@ -983,16 +1140,33 @@ def build_copc(rng):
     keys = [(0, 0, 0, 0)] + [(1, d & 1, (d >> 1) & 1, (d >> 2) & 1) for d in range(8)]
     for d in rng.sample(range(8), 3):
         keys.append((2, d & 1, (d >> 1) & 1, (d >> 2) & 1))         # inside child (1,0,0,0)
+    for d in rng.sample(range(8), 2):
+        keys.append((2, 2 + (d & 1), 2 + ((d >> 1) & 1), 2 + ((d >> 2) & 1)))   # inside child (1,1,1,1)
+    if empties == "none":
+        empty = set()
+    elif empties == "root":
+        empty = {keys[0]}
+    elif empties == "inner":
+        empty = {(1, 0, 0, 0), (1, 1, 1, 1)}
+    elif empties == "all":
+        empty = set(keys)
+    else:
+        empty = {k for k in keys if rng.random() < (0.5 if k[0] == 0 else 0.35)}
+        if not empty:
+            empty = {rng.choice(keys)}
+        if len(empty) == len(keys):
+            empty.discard(rng.choice(keys[1:]))
     nodes = []
     for idx, (lv, x, y, z) in enumerate(keys):
         side = 10000 >> lv                                           # in integer coordinates (root cube = [0, 10000)^3)
-        n = rng.randrange(1, 6)
+        n = 0 if (lv, x, y, z) in empty else rng.randrange(1, 6)
         rec = laspy.ScaleAwarePointRecord.zeros(n, header=h)
         rec["X"] = [x * side + rng.randrange(side) for _ in range(n)]
         rec["Y"] = [y * side + rng.randrange(side) for _ in range(n)]
         rec["Z"] = [z * side + rng.randrange(side) for _ in range(n)]
         rec["intensity"] = [idx * 100 + j for j in range(n)]
-        nodes.append({"key": (lv, x, y, z), "n": n, "chunk": fake_lazrs.encode_chunk(bytes(rec.memoryview()), isz)})
+        nodes.append({"key": (lv, x, y, z), "n": n, "offset": 0,
+                      "chunk": fake_lazrs.encode_chunk(bytes(rec.memoryview()), isz) if n else b""})
     lazvlr = fake_lazrs.LazVlr.new_for_compression(6, 0, use_variable_size_chunks=True)
     h.vlrs.append(laspy.VLR("copc", 1, "COPC info", b"\0" * 160))
     h.vlrs.append(laspy.VLR("laszip encoded", 22204, "fake laszip", bytes(lazvlr.record_data())))
@@ -1002,10 +1176,15 @@ def build_copc(rng):
     pos = h.offset_to_point_data
     body = bytearray(struct.pack("<q", -1))
     pos += 8
-    order = list(range(len(nodes)))
+    order = [k for k in range(len(nodes)) if nodes[k]["n"]]
     rng.shuffle(order)
+    if layout.startswith("deepest"):
+        order.sort(key=lambda k: -nodes[k]["key"][0])
+    elif layout.startswith("level"):
+        order.sort(key=lambda k: nodes[k]["key"][0])
+    gap_p = 0.3 if (layout == "random" or "gaps" in layout) else 0.0
     for k in order:
-        if rng.random() < 0.3:                                       # unused bytes between chunks
+        if rng.random() < gap_p:                                     # unused bytes between chunks
             gap = rng.randrange(1, 9)
             body += bytes(rng.randrange(256) for _ in range(gap))
             pos += gap
@@ -1028,12 +1207,19 @@ def build_copc(rng):
     return out.getvalue() + bytes(body) + evlr, nodes
 
 
-def e2e_queries(rng):
-    import numpy as np
-    qs = [{"level": None, "bounds": None}, {"level": 1, "bounds": None}, {"level": [1, 3], "bounds": None}]
-    for _ in range(3):
+def e2e_queries(rng, nodes):
+    """the whole file, level selections, boxes; and for (up to 3 of) the empty nodes the query that selects exactly that node"""
+    qs = [{"level": None, "bounds": None}, {"level": 1, "bounds": None}, {"level": [1, 3], "bounds": None}, {"level": 0, "bounds": None}]
+    for _ in range(2):
         lo = [rng.choice([0.0, 50.0]) for _ in range(3)]
         qs.append({"level": rng.choice([None, [0, 2], 2]), "bounds": [lo, [lo[0] + 50.0, lo[1] + 50.0, rng.choice([lo[2] + 50.0, 100.0])]]})
+    empty = [nd for nd in nodes if nd["n"] == 0]
+    rng.shuffle(empty)
+    for nd in empty[:3]:
+        lv, x, y, z = nd["key"]
+        side = 100.0 / (1 << lv)
+        lo = [x * side + side / 4, y * side + side / 4, z * side + side / 4]
+        qs.append({"level": lv, "bounds": [lo, [v + side / 2 for v in lo]], "selects": "only the empty node %d-%d-%d-%d" % nd["key"]})
     return qs
 
 
@@ -1048,23 +1234,19 @@ def e2e_query(copc, reader, q):
     return reader.query(bounds=b, level=lv).array.tobytes()
 
 
-class FailStarts:
-    """fails every request that starts at one of the given offsets"""
-
-    def __init__(self, starts):
-        self.starts = set(starts)
-
-    def __contains__(self, req):
-        return req[0] in self.starts
+def e2e_local(raw, q):
+    copc = e2e_backend()
+    try:
+        return ("returned", e2e_query(copc, copc.CopcReader(io.BytesIO(raw)), q))
+    except Exception as ex:  # noqa
+        return ("error", common.exc_kind(ex))
 
 
-def e2e_run(raw, q, strategy, workers, fail_starts, schedule=None, policy=None):
-    from harness import fake_lazrs
-    fake_lazrs.install()
-    import laspy.copc as copc
-    local = e2e_query(copc, copc.CopcReader(io.BytesIO(raw)), q)
-    world = World(raw, ())
-    world.failing = FailStarts(fail_starts)
+def e2e_run(raw, q, strategy, workers, faults, schedule=None, policy=None):
+    """faults: {start offset of a request: (status, body kind)}"""
+    e2e_backend()
+    local = e2e_local(raw, q)
+    world = World(raw, {int(k): tuple(v) for k, v in dict(faults).items()}, by_start=True)
 
     def fn(p):
         src = p.stream_cls("http://fake/e2e.copc.laz")
@@ -1072,31 +1254,41 @@ def e2e_run(raw, q, strategy, workers, fail_starts, schedule=None, policy=None):
         return e2e_query(p.copc, rd, q)
     mode = "queue" if strategy == "queue" else "exec"
     res = controlled_call(mode, world, fn, schedule, policy, seek_yields=(mode == "exec"))
-    failed = [r for r in res["requests"] if r in world.failing]
-    return local, res, failed
+    return local, res, res["failed"]
 
 
 def e2e_oracle(local, res, failed):
     if res["problem"] is not None:
-        return "e2e: query over http blocks (" + res["problem"][0] + ")", str(res["problem"][1])
+        return "e2e: query over http blocks (" + res["problem"][0] + ")", str(res["problem"][1]) + f"; the local query: {short(local)[0]}"
     if res["leaked"] or not all(res["exited"]):
         return "e2e: thread still alive after the query", f"{res['leaked']} exited={res['exited']}"
     out = res["outcome"]
     if not failed:
+        if local[0] == "error":
+            if out[0] != "error" or not out[1].startswith(local[1]):
+                return "e2e: query over http differs from the local query (which raises)", f"{short(out)} vs local {local}"
+            return None
         if out[0] != "returned":
-            return "e2e: query over http raises although no request failed", str(short(out))
-        if out[1] != local:
-            return "e2e: query over http returns other points than the local file", f"{len(out[1])} bytes vs {len(local)} bytes, first difference at {next((k for k in range(min(len(out[1]), len(local))) if out[1][k] != local[k]), min(len(out[1]), len(local)))}"
+            return "e2e: query over http raises although no request failed", str(short(out)) + f"; the local query returns {len(local[1])} bytes of records"
+        if out[1] != local[1]:
+            a, b = out[1], local[1]
+            return "e2e: query over http returns other points than the local file", f"{len(a)} bytes vs {len(b)} bytes, first difference at {next((k for k in range(min(len(a), len(b))) if a[k] != b[k]), min(len(a), len(b)))}"
     else:
         if out[0] == "returned":
-            return "e2e: failed request swallowed by the query", f"failed {failed}"
+            return "e2e: failed request swallowed by the query", f"failed {failed}, returned {len(out[1])} bytes of records"
         if out[0] != "raised" or out[1] not in failed:
             return "e2e: failed request surfaced as something else", str(short(out))
     return None
 
 
+E2E_POLICIES = ["main preempted between its puts / thread starts until no worker can move",
+                "main-first (a worker preempted between task_done and put)", None, None, None]
+
+
 def e2e(ctx):
-    """CopcReader.query over the fake HTTP source vs the same query on the local bytes (fake_lazrs as the LAZ backend)"""
+    """CopcReader.query over the fake HTTP source vs the same query on the local bytes (fake_lazrs as the LAZ backend):
+    chunk layouts (deepest level first / level order / random), nodes without points (also queries selecting only those),
+    worker counts 1.., both strategies, a failing data request of every kind"""
     try:
         from harness import fake_lazrs  # noqa
     except Exception:
@@ -1105,42 +1297,62 @@ def e2e(ctx):
     rng = ctx.rng
     found = []
     runs = 0
-    for _ in range(ctx.n(2, 8)):
-        raw, nodes = build_copc(rng)
-        for q in e2e_queries(rng):
-            for strategy in ("queue", "executor"):
+    t0 = time.time()
+    nfiles = ctx.n(15, 60)
+    for fi in range(nfiles):
+        layout, empties = LAYOUTS[fi % len(LAYOUTS)], EMPTIES[fi % len(EMPTIES)]
+        raw, nodes = build_copc(rng, layout, empties)
+        offs = {nd["offset"] for nd in nodes if nd["n"]}
+        for qi, q in enumerate(e2e_queries(rng, nodes)):
+            for si, strategy in enumerate(("queue", "executor")):
                 starts = []
                 for with_failure in (False, True):
-                    if with_failure and not starts:
+                    if with_failure and (not starts or (qi + si + fi) % 2):
                         continue
-                    fail = [rng.choice(starts)] if with_failure else []
-                    workers = rng.choice([1, 2, 3, 8])
-                    prio = LABELS[:]
-                    rng.shuffle(prio)
-                    pol = make_policy(prio, rng.choice(["low", "high"]), rng.choice([0.0, 0.5, 1.0]), rng)
-                    local, res, failed = e2e_run(raw, q, strategy, workers, fail, policy=pol)
-                    offs = {nd["offset"] for nd in nodes}
+                    faults = {rng.choice(starts): CYCLE.next()} if with_failure else {}
+                    workers = rng.choice([1, 1, 2, 3, 8])
+                    pname = E2E_POLICIES[(runs + fi) % len(E2E_POLICIES)]
+                    if pname is None:
+                        prio = LABELS[:]
+                        rng.shuffle(prio)
+                        pol = make_policy(prio, rng.choice(["low", "high"]), rng.choice([0.0, 0.5, 1.0]), rng)
+                    else:
+                        pol = make_policy(ADVERSARIAL[pname][0], ADVERSARIAL[pname][1], 0.0, rng)
+                    local, res, failed = e2e_run(raw, q, strategy, workers, faults, policy=pol)
                     starts = sorted({r[0] for r in res["requests"] if r[0] in offs})
                     runs += 1
-                    ctx.case(("e2e", hash(raw), str(q), strategy, workers, tuple(fail), tuple(res["decisions"])),
+                    ctx.case(("e2e", hash(raw), str(q), strategy, workers, tuple(faults.items()), tuple(res["decisions"])),
                              nontrivial=len(set(res["decisions"])) >= 3)
                     ctx.count("e2e:" + strategy + (":failing" if failed else ""))
                     ctx.count(f"e2e:ranges:{len(starts)}")
+                    ctx.count("e2e:layout:" + layout)
+                    ctx.count("e2e:empty nodes:" + empties)
+                    if "selects" in q:
+                        ctx.count("e2e:query selecting only an empty node")
                     bad = e2e_oracle(local, res, failed)
                     if bad is not None and not any(f["kind"] == bad[0] for f in found):
                         found.append({"kind": bad[0], "observed": bad[1],
                                       "input": {"strategy": "e2e", "http_strategy": strategy, "file_hex": raw.hex(), "query": q,
-                                                "workers": workers, "fail_starts": fail, "schedule": res["decisions"]},
-                                      "expected": "the same point records as CopcReader.query on the local bytes" if not failed
-                                      else f"the error of a failed request {failed}"})
+                                                "layout": layout, "empty_nodes": empties, "workers": workers,
+                                                "faults": {str(k): list(v) for k, v in faults.items()},
+                                                "faults_legend": "{start offset of the request: [status (-1: no answer), error body kind]}",
+                                                "schedule": res["decisions"]},
+                                      "trace": res["events"][-80:],
+                                      "expected": ("the same point records as CopcReader.query on the local bytes" if not failed
+                                                   else f"the error of a failed request {failed}")})
     ctx.extra["end_to_end_queries"] = runs
+    ctx.extra["end_to_end_seconds"] = round(time.time() - t0, 1)
     return found
 
 
 def e2e_replay(inp):
     raw = bytes.fromhex(inp["file_hex"])
-    local, res, failed = e2e_run(raw, inp["query"], inp["http_strategy"], inp["workers"], inp["fail_starts"], schedule=list(inp["schedule"]))
+    faults = inp.get("faults")
+    if faults is None:
+        faults = {s: (500, "empty") for s in inp.get("fail_starts", [])}
+    local, res, failed = e2e_run(raw, inp["query"], inp["http_strategy"], inp["workers"], faults, schedule=list(inp["schedule"]))
     bad = e2e_oracle(local, res, failed)
+    print("trace:", " ".join(res["events"][-60:]))
     if bad is None:
         print("not reproduced")
         return 0
